@@ -21,7 +21,7 @@ template<> struct FiItem<std::string> {
   // item 0 is the empty string; lengths 0..13
   static std::string make(uint64_t i) {
     if (i == 0) return std::string();
-    return std::to_string((i * 2654435761ULL) % 100000) + std::string(static_cast<size_t>(i % 5), static_cast<char>('a' + i % 26)) + (i % 11 == 3 ? std::string(1, '\0') : std::string());
+    return std::to_string((i * 2654435761ULL) % 100000) + std::string(static_cast<size_t>(i % 5), static_cast<char>('a' + i % 26)) + (i % 11 == 3 ? std::string(1, '\0') : std::string()) + long_pad(i);
   }
   static std::string show(const std::string& v) { return "'" + hex(v.data(), v.size()) + "'"; }
 };
